@@ -30,8 +30,10 @@ X_PROFILE = {
     "w": {"setTimer": 5, "cancelTimer": 3, "send": 0, "broadcast": 0, "goto": 2, "setSpeed": 1,
           # gotoGeo stays off, as in every other simulator-level check: the model has the repaired
           # geo_to_cartesian; the frame lemma for gotoGeo is proved all the same
-          "setRange": 1.5, "gotoGeo": 0},
+          "setRange": 1.5, "gotoGeo": 0, "gotoHere": 1},
     "maxReq": 4, "budget": 45, "pTelemetry": 0.3, "pGuarded": 0.1, "pFinish": 0.5,
+    # x also parks itself: speed exactly 0, a goto to the place where it is
+    "speeds": [10.0, 4.0, 0.5, 64.0, 0.0, 0.0],
 }
 NODE_SCOPED = ("setTimer", "cancelTimer", "goto", "gotoGeo", "setSpeed", "setRange")
 
